@@ -90,9 +90,13 @@ def worker(task):
         rng = random.Random(f"c08-{seed}-{idx}")
         transient = rng.random() < 0.2
         ov = {"storage_layout": "generic"} if rng.random() < 0.4 else {}
-        if rng.random() < 0.12:
+        k0 = rng.random()
+        if k0 < 0.12:
             case = storagegen.make_transient_pair_case(rng, overrides=ov)
             res["counters"]["transient_two_account_programs"] += 1
+        elif k0 < 0.2:
+            case = storagegen.make_symbolic_transient_case(rng, overrides=ov)
+            res["counters"]["symbolic_storage_transient_programs"] += 1
         else:
             case = storagegen.make_storage_case(rng, transient=transient, overrides=ov)
         res["features"]["layout:" + ov.get("storage_layout", "solidity")] += 1
@@ -103,6 +107,36 @@ def worker(task):
         r = diffcore.diff_case(case, rng, res, n_random=0, n_models=0, extra_inputs=ins, judge_c01=True, judge_c02=True)
         if r is None:
             continue
+        if case.label == "symbolic-storage-transient":
+            # the persistent storage is an unconstrained input here, so "some valuation agrees with the reference" is not enough: the transient
+            # reads must be *determined* by the call data.  For every input and admitting path: no valuation of the free symbols may give an
+            # output different from the reference's.
+            import z3, pathmodel
+            for inp in ins:
+                pn = diffcore.pins_for(r, inp)
+                try:
+                    ref = diffcore.run_reference(case, inp, [])
+                except Exception:  # noqa
+                    continue
+                if not ref["ok"]:
+                    continue
+                want = ref["ret"]
+                for p_ in r.paths:
+                    if p_.stuck or p_.error is not None or p_.out is None or isinstance(p_.out, bytes):
+                        continue
+                    if p_.out.size() != 8 * len(want) or not want:
+                        continue
+                    v1 = pathmodel.admits(list(p_.conds), [], pn)
+                    if v1[0] != "sat":
+                        continue
+                    res["counters"]["determinacy_obligations"] += 1
+                    v2 = pathmodel.admits(list(p_.conds) + [p_.out != z3.BitVecVal(int.from_bytes(want, "big"), p_.out.size())], [], pn)
+                    if v2[0] == "sat":
+                        res["violations"].append(dict(what="a transient-storage read is not determined by the inputs once symbolic (persistent) storage is enabled: the path admits the input with an output that differs from the EVM's",
+                                                      key="transient-read-undetermined", case=case.describe(), input=inp.describe(), want=want.hex()[:300], index=idx))
+                        break
+                    elif v2[0] == "unsat":
+                        res["counters"]["determinacy_discharged"] += 1
         res["counters"]["storage_programs"] += 1
         # non-trivial: some valuation makes two *different* location specs denote the same slot, while another keeps them apart
         coll = sep = False
